@@ -292,7 +292,7 @@ func runCases(path string, out *bufio.Writer) error {
 				} else {
 					res = doEvaluate(e, d, ctx)
 				}
-			case "selall", "evalall":
+			case "selall", "evalall", "sel3all", "eval3all":
 				d := docs[fl[3]]
 				e, err := compile(doc.Unesc(fl[6]), fl[5])
 				if err != nil {
@@ -301,7 +301,7 @@ func runCases(path string, out *bufio.Writer) error {
 				}
 				var parts []string
 				for _, ctx := range doc.All(d.root) {
-					if kind == "selall" {
+					if kind == "selall" || kind == "sel3all" {
 						parts = append(parts, doSelect(e, d, ctx))
 					} else {
 						parts = append(parts, doEvaluate(e, d, ctx))
